@@ -329,11 +329,11 @@ def run_check(check, tier, workers=None):
     exit_code = 0
     os.makedirs(REPLAYS, exist_ok=True)
     unreplayable = []
-    replay_budget = [24]
+    replay_budget = [getattr(check, "replay_budget", 24)]
     for sig, rs in sorted(groups.items(), key=lambda kv: kv[1][0]["idx"])[:8]:
         done = False
         last_out = ""
-        for r in rs[:6]:          # a violation that does not replay is never reported: try other runs of the group
+        for r in rs[:getattr(check, "group_tries", 6)]:   # a violation that does not replay is never reported: try other runs of the group
             if replay_budget[0] <= 0:
                 break
             replay_budget[0] -= 1
